@@ -11,35 +11,91 @@
    std++ side (TrackerSpec, StateHandlers): Required, not Imported. *)
 From Verif Require Import GoBytes LineLib GoBytesFacts Line.
 From Verif Require Import GoFuncs GenEqTac.
-From Verif Require TrackerSpec StateHandlers.
+From Verif Require Commands GenEqCmd.
+From Verif Require TrackerSpec StateHandlers LineTotal.
 Open Scope Z_scope.
 
-Definition nsnap (n : TrackerSpec.nick_snap) : go_state_Nick :=
-  (TrackerSpec.sn_nick n, TrackerSpec.sn_ident n, TrackerSpec.sn_host n, TrackerSpec.sn_name n).
-Definition csnap (c : TrackerSpec.chan_snap) : go_state_Channel :=
-  (TrackerSpec.sc_name c, TrackerSpec.sc_topic c).
+(* the unmodelled fields of state.Nick / state.Channel (Modes, Channels / Modes, Nicks) are ONE
+   abstract component of the generated tuples; here it is the rest of TrackerSpec's snapshots *)
+Notation nrest := (TrackerSpec.nickmode * list (TrackerSpec.name * TrackerSpec.privs))%type.
+Notation crest := (TrackerSpec.chanmode * list (TrackerSpec.name * TrackerSpec.privs))%type.
+Notation gnick := (@go_state_Nick nrest).
+Notation gchan := (@go_state_Channel crest).
+Definition nrest_eqb (a b : nrest) : bool := stdpp.decidable.bool_decide (a = b).
+Definition nsnap (n : TrackerSpec.nick_snap) : gnick :=
+  (TrackerSpec.sn_nick n, TrackerSpec.sn_ident n, TrackerSpec.sn_host n, TrackerSpec.sn_name n,
+   (TrackerSpec.sn_modes n, TrackerSpec.sn_chans n)).
+Definition csnap (c : TrackerSpec.chan_snap) : gchan :=
+  (TrackerSpec.sc_name c, TrackerSpec.sc_topic c, (TrackerSpec.sc_modes c, TrackerSpec.sc_nicks c)).
+Definition psnap (p : TrackerSpec.privs) : go_state_ChanPrivs :=
+  (TrackerSpec.cp_q p, TrackerSpec.cp_a p, TrackerSpec.cp_o p, TrackerSpec.cp_h p, TrackerSpec.cp_v p).
 Definition liftn (r : TrackerSpec.tstate * option TrackerSpec.nick_snap) := (fst r, option_map nsnap (snd r)).
 Definition liftc (r : TrackerSpec.tstate * option TrackerSpec.chan_snap) := (fst r, option_map csnap (snd r)).
+Definition liftp (r : TrackerSpec.tstate * option TrackerSpec.privs) := (fst r, option_map psnap (snd r)).
+Definition liftpb (r : TrackerSpec.tstate * (option TrackerSpec.privs * bool)) :=
+  (fst r, (option_map psnap (fst (snd r)), snd (snd r))).
+
+(* Nick.Equals = reflect.DeepEqual on the generated side is snapshot equality on the model side *)
+Lemma nsnap_eqb a b :
+  go_state_Nick_eqb nrest_eqb (Some (nsnap a)) (Some (nsnap b)) = stdpp.decidable.bool_decide (a = b).
+Proof.
+  destruct a as [a1 a2 a3 a4 a5 a6], b as [b1 b2 b3 b4 b5 b6].
+  cbn [go_state_Nick_eqb nsnap TrackerSpec.sn_nick TrackerSpec.sn_ident TrackerSpec.sn_host
+       TrackerSpec.sn_name TrackerSpec.sn_modes TrackerSpec.sn_chans]. unfold nrest_eqb.
+  apply Bool.eq_iff_eq_true.
+  rewrite !andb_true_iff, !beq_eq, !stdpp.decidable.bool_decide_eq_true. split.
+  - intros [[[[-> ->] ->] ->] H]. inversion H. reflexivity.
+  - intros H. inversion H. repeat split; reflexivity.
+Qed.
 
 Definition of_hres (r : StateHandlers.hres) : res (option TrackerSpec.tstate) :=
   match r with
   | StateHandlers.HOk s => Ok (Some (StateHandlers.h_trk s))
   | StateHandlers.HPanic _ => Panic
   end.
+Definition of_hres_out (r : StateHandlers.hres) : res (option TrackerSpec.tstate * list bytes) :=
+  match r with
+  | StateHandlers.HOk s => Ok (Some (StateHandlers.h_trk s), StateHandlers.h_out s)
+  | StateHandlers.HPanic _ => Panic
+  end.
 Definition hst0 (t : TrackerSpec.tstate) : StateHandlers.hst :=
   {| StateHandlers.h_trk := t; StateHandlers.h_out := [] |}.
 
 Section StateTie.
-  Variable trk : go_state_Tracker TrackerSpec.tstate.
+  Variable trk : @go_state_Tracker nrest crest TrackerSpec.tstate.
   Hypothesis HReNick : forall t a b, go_state_Tracker_ReNick trk t a b = liftn (TrackerSpec.sp_ReNick t a b).
   Hypothesis HDelNick : forall t a, go_state_Tracker_DelNick trk t a = liftn (TrackerSpec.sp_DelNick t a).
   Hypothesis HGetNick : forall t a, go_state_Tracker_GetNick trk t a = liftn (TrackerSpec.sp_GetNick t a).
+  Hypothesis HNewNick : forall t a, go_state_Tracker_NewNick trk t a = liftn (TrackerSpec.sp_NewNick t a).
+  Hypothesis HNickInfo : forall t a b c d,
+    go_state_Tracker_NickInfo trk t a b c d = liftn (TrackerSpec.sp_NickInfo t a b c d).
   Hypothesis HNickModes : forall t a b, go_state_Tracker_NickModes trk t a b = liftn (TrackerSpec.sp_NickModes t a b).
+  Hypothesis HMe : forall t, go_state_Tracker_Me trk t = liftn (TrackerSpec.sp_Me t).
   Hypothesis HGetChannel : forall t a, go_state_Tracker_GetChannel trk t a = liftc (TrackerSpec.sp_GetChannel t a).
+  Hypothesis HNewChannel : forall t a, go_state_Tracker_NewChannel trk t a = liftc (TrackerSpec.sp_NewChannel t a).
   Hypothesis HTopic : forall t a b, go_state_Tracker_Topic trk t a b = liftc (TrackerSpec.sp_Topic t a b).
   Hypothesis HChannelModes : forall t a b c,
     go_state_Tracker_ChannelModes trk t a b c = liftc (TrackerSpec.sp_ChannelModes t a b c).
+  Hypothesis HIsOn : forall t a b, go_state_Tracker_IsOn trk t a b = liftpb (TrackerSpec.sp_IsOn t a b).
+  Hypothesis HAssociate : forall t a b, go_state_Tracker_Associate trk t a b = liftp (TrackerSpec.sp_Associate t a b).
   Hypothesis HDissociate : forall t a b, go_state_Tracker_Dissociate trk t a b = TrackerSpec.sp_Dissociate t a b.
+
+  Lemma go_Me_spec me t :
+    go_client_Conn_Me trk me (Some t)
+    = Ok (option_map nsnap (snd (TrackerSpec.sp_Me t)), Some t, option_map nsnap (snd (TrackerSpec.sp_Me t))).
+  Proof.
+    cbv beta delta [go_client_Conn_Me]. cbn [go_is_some bind]. rewrite HMe.
+    unfold liftn, TrackerSpec.sp_Me. reflexivity.
+  Qed.
+
+  Lemma me_equals_eqb t nk :
+    go_state_Nick_eqb nrest_eqb (option_map nsnap (snd (TrackerSpec.sp_Me t))) (Some (nsnap nk))
+    = StateHandlers.me_equals t (Some nk).
+  Proof.
+    unfold StateHandlers.me_equals. destruct (snd (TrackerSpec.sp_Me t)) as [m|]; cbn [option_map].
+    - apply nsnap_eqb.
+    - reflexivity.
+  Qed.
 
   Ltac st_scrut x :=
     lazymatch x with
@@ -49,15 +105,27 @@ Section StateTie.
     | _ => destruct x eqn:?
     end.
   Ltac st_crunch :=
-    unfold StateHandlers.arg, StateHandlers.pget, StateHandlers.tr_, StateHandlers.tr, StateHandlers.tru,
-      StateHandlers.argslen, StateHandlers.is_some, of_hres, hst0, liftn, liftc;
+    unfold StateHandlers.last_arg; unfold StateHandlers.arg, StateHandlers.pget, StateHandlers.tr_, StateHandlers.tr, StateHandlers.tru,
+      StateHandlers.argslen, StateHandlers.is_some, StateHandlers.last_arg, StateHandlers.send,
+      of_hres, of_hres_out, hst0, liftn, liftc, liftp, liftpb;
     cbv beta delta [go_client_Line_argslen];
     repeat first
       [ progress cbn [bind fst snd negb go_is_some option_map StateHandlers.h_trk StateHandlers.h_out
-                      nsnap go_state_Nick_get_Nick]
+                      nsnap csnap go_state_Nick_get_Nick go_state_Channel_get_Name app
+                      TrackerSpec.sn_nick TrackerSpec.sc_name]
       | rewrite HReNick | rewrite HDelNick | rewrite HGetNick | rewrite HNickModes
       | rewrite HGetChannel | rewrite HTopic | rewrite HChannelModes | rewrite HDissociate
-      | progress unfold liftn, liftc, TrackerSpec.sp_GetChannel, TrackerSpec.sp_GetNick
+      | rewrite HNewNick | rewrite HNickInfo | rewrite HMe | rewrite HNewChannel
+      | rewrite HIsOn | rewrite HAssociate | rewrite go_Me_spec | rewrite me_equals_eqb | rewrite nsnap_eqb
+      | progress unfold liftn, liftc, liftp, liftpb, TrackerSpec.sp_GetChannel, TrackerSpec.sp_GetNick
+      | match goal with
+        | |- context [elem_at ?a ?b] => destruct (elem_at a b) eqn:?
+        | |- context [elems_from ?a ?b] => destruct (elems_from a b) eqn:?
+        | |- context [byte_at ?a ?b] => destruct (byte_at a b) eqn:?
+        | |- context [slice_from ?a ?b] => destruct (slice_from a b) eqn:?
+        | |- context [llen ?a <=? ?b] => destruct (llen a <=? b) eqn:?
+        | |- context [StateHandlers.me_equals ?a ?b] => destruct (StateHandlers.me_equals a b) eqn:?
+        end
       | match goal with
         | |- context [TrackerSpec.chan_snapshot ?a ?b] => destruct (TrackerSpec.chan_snapshot a b) eqn:?
         | |- context [TrackerSpec.nick_snapshot ?a ?b] => destruct (TrackerSpec.nick_snapshot a b) eqn:?
@@ -67,7 +135,11 @@ Section StateTie.
         | |- context [match ?x with _ => _ end] => st_scrut x
         | |- context [bind ?r _] => st_scrut r
         end ];
-    try reflexivity; try congruence;
+    try reflexivity; try congruence; try (cbn [andb orb negb] in *; congruence);
+    try (exfalso; match goal with
+         | H : elem_at ?l ?i = Panic, G : (llen ?l <=? ?n) = false |- _ =>
+             destruct (LineTotal.elem_at_ok l i) as (? & ? & _); [lia | congruence]
+         end);
     try (match goal with H : StateHandlers.HOk _ = _ |- _ => inversion H; subst; reflexivity end);
     try (match goal with H : StateHandlers.HPanic _ = _ |- _ => inversion H; subst; reflexivity end).
 
@@ -105,19 +177,171 @@ Section StateTie.
     cbv beta delta [go_client_Conn_h_671 StateHandlers.h_671]. unfold StateHandlers.m_plus_z.
     timeout 60 st_crunch.
   Qed.
+
+  (* ---------- the handlers that call conn.Me().Equals(nk) ----------
+     conn.Me() also assigns conn.cfg.Me; the state handlers' model (hst) does not carry cfg.Me
+     (Client.v's st_calls_me does), so the statements project the generated result to the
+     tracker (and the lines sent). *)
+  Ltac me_crunch :=
+    repeat first
+      [ rewrite go_Me_spec | rewrite me_equals_eqb
+      | progress cbn [bind fst snd negb go_is_some option_map]
+      | progress st_crunch ].
+
+  Lemma go_h_MODE_eq me t l :
+    (r <- go_client_Conn_h_MODE nrest_eqb trk me (Some t) (l_args l) ;; Ok (snd r))
+    = of_hres (StateHandlers.h_MODE l (hst0 t)).
+  Proof.
+    cbv beta delta [go_client_Conn_h_MODE StateHandlers.h_MODE]. timeout 120 me_crunch.
+  Qed.
+
+  Lemma go_h_311_eq me t l :
+    (r <- go_client_Conn_h_311 nrest_eqb trk me (Some t) (l_args l) ;; Ok (snd r))
+    = of_hres (StateHandlers.h_311 l (hst0 t)).
+  Proof.
+    cbv beta delta [go_client_Conn_h_311 StateHandlers.h_311]. timeout 120 me_crunch.
+  Qed.
+
+  Lemma go_h_352_eq me t l :
+    (r <- go_client_Conn_h_352 nrest_eqb trk me (Some t) (l_args l) ;; Ok (snd r))
+    = of_hres (StateHandlers.h_352 l (hst0 t)).
+  Proof.
+    cbv beta delta [go_client_Conn_h_352 StateHandlers.h_352 StateHandlers.who_flag].
+    unfold StateHandlers.s_star, StateHandlers.s_B, StateHandlers.s_H, StateHandlers.m_plus_o,
+      StateHandlers.m_plus_B, StateHandlers.m_plus_i, Line.s_space.
+    timeout 120 me_crunch.
+  Qed.
+
+
+  (* ---------- h_JOIN: also sends MODE / WHO lines ---------- *)
+  Lemma go_Mode1 x : go_client_Conn_Mode x [] = Ok (StateHandlers.mode_lines x).
+  Proof. rewrite (GenEqCmd.go_Mode_eq StateHandlers.cmd_cfg0). reflexivity. Qed.
+  Lemma go_Who1 x : go_client_Conn_Who x = Ok (StateHandlers.who_lines x).
+  Proof. rewrite (GenEqCmd.go_Who_eq StateHandlers.cmd_cfg0). reflexivity. Qed.
+
+  (* DeepEqual(nil, nil) is true while the model's me_equals is false when Me() is nil: they
+     agree as soon as the tracker knows its own nick (always, for a tracker made by NewTracker) *)
+  Lemma me_equals_eqb_opt t nk : StateHandlers.is_some (snd (TrackerSpec.sp_Me t)) = true ->
+    go_state_Nick_eqb nrest_eqb (option_map nsnap (snd (TrackerSpec.sp_Me t))) (option_map nsnap nk)
+    = StateHandlers.me_equals t nk.
+  Proof.
+    intros Hme. destruct nk as [n|]; [apply me_equals_eqb|].
+    unfold StateHandlers.me_equals. destruct (snd (TrackerSpec.sp_Me t)); [reflexivity|discriminate].
+  Qed.
+
+  Lemma me_equals_eqb_none t : StateHandlers.is_some (snd (TrackerSpec.sp_Me t)) = true ->
+    go_state_Nick_eqb nrest_eqb (option_map nsnap (snd (TrackerSpec.sp_Me t))) None
+    = StateHandlers.me_equals t None.
+  Proof. exact (me_equals_eqb_opt t None). Qed.
+
+  Lemma go_h_JOIN_eq me t l : StateHandlers.is_some (snd (TrackerSpec.sp_Me t)) = true ->
+    (r <- go_client_Conn_h_JOIN nrest_eqb trk me (Some t) (l_args l) (l_host l) (l_ident l) (l_nick l) ;;
+     Ok (snd (fst r), snd r))
+    = of_hres_out (StateHandlers.h_JOIN l (hst0 t)).
+  Proof.
+    intros Hme.
+    cbv beta delta [go_client_Conn_h_JOIN StateHandlers.h_JOIN StateHandlers.join_nick StateHandlers.join_assoc].
+    cbv zeta.
+    unfold StateHandlers.arg, StateHandlers.pget. cbn [hst0 StateHandlers.h_trk].
+    destruct (elem_at (l_args l) 0) as [a0|]; [|reflexivity]. cbn [bind].
+    repeat first [ rewrite HGetChannel | rewrite HGetNick | progress cbn [bind fst snd]
+                 | progress unfold liftc, liftn, TrackerSpec.sp_GetChannel, TrackerSpec.sp_GetNick ].
+    cbv zeta. rewrite ?go_Me_spec.
+    destruct (TrackerSpec.chan_snapshot t a0) as [ch|], (TrackerSpec.nick_snapshot t (l_nick l)) as [nk|] eqn:Hnk;
+      cbn [option_map go_is_some negb bind StateHandlers.is_some];
+      rewrite ?(me_equals_eqb_none t Hme), ?me_equals_eqb;
+      unfold hst0;
+      try (destruct (StateHandlers.me_equals t _); cbn [negb bind]);
+      repeat first
+        [ progress cbn [bind fst snd app negb StateHandlers.h_trk StateHandlers.h_out]
+        | rewrite HNewNick | rewrite HNickInfo | rewrite HNewChannel | rewrite HAssociate
+        | rewrite go_Mode1 | rewrite go_Who1
+        | progress unfold liftn, liftc, liftp, StateHandlers.tr_, StateHandlers.tr, StateHandlers.send, of_hres_out ];
+      reflexivity.
+  Qed.
+
+
+  (* ---------- h_353: the loop over the names, with the fallthrough switch ---------- *)
+  Lemma prefix_mode_none c :
+    (c =? 126)%N = false -> (c =? 38)%N = false -> (c =? 64)%N = false -> (c =? 37)%N = false ->
+    (c =? 43)%N = false -> StateHandlers.prefix_mode c = None.
+  Proof.
+    intros H1 H2 H3 H4 H5. destruct c as [|p]; [reflexivity|].
+    do 8 (try (match goal with q : positive |- _ => destruct q end; try reflexivity)).
+    all: try (cbv in H1, H2, H3, H4, H5; discriminate).
+  Qed.
+
+  Lemma fst_IsOn t c n : fst (TrackerSpec.sp_IsOn t c n) = t.
+  Proof.
+    unfold TrackerSpec.sp_IsOn.
+    repeat (match goal with |- context [match ?x with _ => _ end] => destruct x end); reflexivity.
+  Qed.
+
+  Definition hst_of (t : TrackerSpec.tstate) : StateHandlers.hst :=
+    {| StateHandlers.h_trk := t; StateHandlers.h_out := [] |}.
+
+  Lemma go_h_353_eq t l :
+    go_client_Conn_h_353 trk (Some t) (l_args l) = of_hres (StateHandlers.h_353 l (hst0 t)).
+  Proof.
+    cbv beta delta [go_client_Conn_h_353 StateHandlers.h_353]. cbv zeta.
+    unfold StateHandlers.last_arg; unfold StateHandlers.arg, StateHandlers.pget, StateHandlers.argslen.
+    cbv beta delta [go_client_Line_argslen]. cbn [hst0 StateHandlers.h_trk].
+    destruct (llen (l_args l) <=? 2); cbn [bind negb]; [reflexivity|].
+    destruct (elem_at (l_args l) 2) as [a2|]; [|reflexivity]. cbn [bind].
+    rewrite HGetChannel. unfold liftc, TrackerSpec.sp_GetChannel. cbn [bind fst snd].
+    destruct (TrackerSpec.chan_snapshot t a2) as [ch|]; cbn [option_map go_is_some]; [|reflexivity].
+    destruct (elem_at (l_args l) (llen (l_args l) - 1)) as [la|]; [|reflexivity]. cbn [bind].
+    match goal with |- context [?F] => is_fix F; set (loop := F) end.
+    assert (Hloop : forall nicks t',
+              loop nicks (Some t') = of_hres (StateHandlers.names_loop (TrackerSpec.sc_name ch) nicks (hst_of t'))).
+    { induction nicks as [|nick nicks IH]; intros t'; [reflexivity|].
+      cbn [StateHandlers.names_loop]. unfold loop at 1; fold loop.
+      unfold StateHandlers.names_step, StateHandlers.pget, StateHandlers.is_some, hst_of.
+      rewrite ?ge_beq_nil. destruct (len nick =? 0); [apply IH|].
+      destruct (byte_at nick 0) as [c|]; [|reflexivity]. cbn [bind].
+      destruct (c =? 126)%N eqn:E1; [apply N.eqb_eq in E1; subst c|
+      destruct (c =? 38)%N eqn:E2; [apply N.eqb_eq in E2; subst c|
+      destruct (c =? 64)%N eqn:E3; [apply N.eqb_eq in E3; subst c|
+      destruct (c =? 37)%N eqn:E4; [apply N.eqb_eq in E4; subst c|
+      destruct (c =? 43)%N eqn:E5; [apply N.eqb_eq in E5; subst c|
+      rewrite (prefix_mode_none c E1 E2 E3 E4 E5)]]]]];
+        cbn [orb StateHandlers.prefix_mode N.eqb Pos.eqb bind];
+        try (destruct (slice_from nick 1) as [nick'|]; [|reflexivity]; cbn [bind]);
+        cbv zeta; unfold StateHandlers.tr_, StateHandlers.tr, hst_of in *;
+        repeat first
+          [ progress cbn [bind fst snd negb go_is_some option_map csnap go_state_Channel_get_Name
+                          TrackerSpec.sc_name N.eqb Pos.eqb StateHandlers.h_trk StateHandlers.h_out]
+          | rewrite HGetNick | rewrite HNewNick | rewrite HIsOn | rewrite HAssociate | rewrite HChannelModes
+          | rewrite fst_IsOn
+          | progress unfold liftn, liftc, liftp, liftpb, StateHandlers.is_some, TrackerSpec.sp_GetNick
+          | match goal with
+            | |- context [TrackerSpec.nick_snapshot ?a ?b] => destruct (TrackerSpec.nick_snapshot a b) eqn:?
+            | |- context [snd (snd (TrackerSpec.sp_IsOn ?a ?b ?c))] => destruct (snd (snd (TrackerSpec.sp_IsOn a b c))) eqn:?
+            end ];
+        try apply IH. }
+    rewrite bind_ok_r. apply Hloop.
+  Qed.
+
 End StateTie.
 
-(* the hypotheses as one predicate, and the eight equalities together *)
-Definition spec_tracker (trk : go_state_Tracker TrackerSpec.tstate) : Prop :=
+(* the hypotheses as one predicate, and the thirteen equalities together *)
+Definition spec_tracker (trk : @go_state_Tracker nrest crest TrackerSpec.tstate) : Prop :=
   (forall t a b, go_state_Tracker_ReNick trk t a b = liftn (TrackerSpec.sp_ReNick t a b))
   /\ (forall t a, go_state_Tracker_DelNick trk t a = liftn (TrackerSpec.sp_DelNick t a))
   /\ (forall t a, go_state_Tracker_GetNick trk t a = liftn (TrackerSpec.sp_GetNick t a))
+  /\ (forall t a, go_state_Tracker_NewNick trk t a = liftn (TrackerSpec.sp_NewNick t a))
+  /\ (forall t a b c d, go_state_Tracker_NickInfo trk t a b c d = liftn (TrackerSpec.sp_NickInfo t a b c d))
   /\ (forall t a b, go_state_Tracker_NickModes trk t a b = liftn (TrackerSpec.sp_NickModes t a b))
+  /\ (forall t, go_state_Tracker_Me trk t = liftn (TrackerSpec.sp_Me t))
   /\ (forall t a, go_state_Tracker_GetChannel trk t a = liftc (TrackerSpec.sp_GetChannel t a))
+  /\ (forall t a, go_state_Tracker_NewChannel trk t a = liftc (TrackerSpec.sp_NewChannel t a))
   /\ (forall t a b, go_state_Tracker_Topic trk t a b = liftc (TrackerSpec.sp_Topic t a b))
   /\ (forall t a b c, go_state_Tracker_ChannelModes trk t a b c = liftc (TrackerSpec.sp_ChannelModes t a b c))
+  /\ (forall t a b, go_state_Tracker_IsOn trk t a b = liftpb (TrackerSpec.sp_IsOn t a b))
+  /\ (forall t a b, go_state_Tracker_Associate trk t a b = liftp (TrackerSpec.sp_Associate t a b))
   /\ (forall t a b, go_state_Tracker_Dissociate trk t a b = TrackerSpec.sp_Dissociate t a b).
 
+(* handlers that only touch the tracker *)
 Lemma go_state_handlers_eq trk : spec_tracker trk -> forall t l,
   go_client_Conn_h_STNICK trk (Some t) (l_args l) (l_nick l) = of_hres (StateHandlers.h_STNICK l (hst0 t))
   /\ go_client_Conn_h_PART trk (Some t) (l_args l) (l_nick l) = of_hres (StateHandlers.h_PART l (hst0 t))
@@ -126,34 +350,54 @@ Lemma go_state_handlers_eq trk : spec_tracker trk -> forall t l,
   /\ go_client_Conn_h_TOPIC trk (Some t) (l_args l) = of_hres (StateHandlers.h_TOPIC l (hst0 t))
   /\ go_client_Conn_h_324 trk (Some t) (l_args l) = of_hres (StateHandlers.h_324 l (hst0 t))
   /\ go_client_Conn_h_332 trk (Some t) (l_args l) = of_hres (StateHandlers.h_332 l (hst0 t))
-  /\ go_client_Conn_h_671 trk (Some t) (l_args l) = of_hres (StateHandlers.h_671 l (hst0 t)).
+  /\ go_client_Conn_h_671 trk (Some t) (l_args l) = of_hres (StateHandlers.h_671 l (hst0 t))
+  /\ go_client_Conn_h_353 trk (Some t) (l_args l) = of_hres (StateHandlers.h_353 l (hst0 t)).
 Proof.
-  intros (H1 & H2 & H3 & H4 & H5 & H6 & H7 & H8) t l.
+  intros (H1 & H2 & H3 & H4 & H5 & H6 & H7 & H8 & H9 & H10 & H11 & H12 & H13 & H14) t l.
   split; [apply go_h_STNICK_eq; assumption|]. split; [apply go_h_PART_eq; assumption|].
   split; [apply go_h_KICK_eq; assumption|]. split; [apply go_h_QUIT_eq; assumption|].
   split; [apply go_h_TOPIC_eq; assumption|]. split; [apply go_h_324_eq; assumption|].
-  split; [apply go_h_332_eq; assumption|apply go_h_671_eq; assumption].
+  split; [apply go_h_332_eq; assumption|]. split; [apply go_h_671_eq; assumption|].
+  apply go_h_353_eq; assumption.
 Qed.
 
-(* satisfiable: TrackerSpec itself as a Tracker record (the methods these eight handlers do not
-   call are filled with functions that do nothing) *)
-Definition spec_as_tracker : go_state_Tracker TrackerSpec.tstate :=
-  {| go_state_Tracker_Associate := fun t _ _ => (t, None);
+(* handlers that call conn.Me() (it also assigns conn.cfg.Me: projected away here, Client.v's
+   st_calls_me describes it) and compare with Nick.Equals; h_JOIN also sends lines *)
+Lemma go_state_handlers_me_eq trk : spec_tracker trk -> forall me t l,
+  (r <- go_client_Conn_h_MODE nrest_eqb trk me (Some t) (l_args l) ;; Ok (snd r))
+    = of_hres (StateHandlers.h_MODE l (hst0 t))
+  /\ (r <- go_client_Conn_h_311 nrest_eqb trk me (Some t) (l_args l) ;; Ok (snd r))
+    = of_hres (StateHandlers.h_311 l (hst0 t))
+  /\ (r <- go_client_Conn_h_352 nrest_eqb trk me (Some t) (l_args l) ;; Ok (snd r))
+    = of_hres (StateHandlers.h_352 l (hst0 t))
+  /\ (StateHandlers.is_some (snd (TrackerSpec.sp_Me t)) = true ->
+      (r <- go_client_Conn_h_JOIN nrest_eqb trk me (Some t) (l_args l) (l_host l) (l_ident l) (l_nick l) ;;
+       Ok (snd (fst r), snd r))
+      = of_hres_out (StateHandlers.h_JOIN l (hst0 t))).
+Proof.
+  intros (H1 & H2 & H3 & H4 & H5 & H6 & H7 & H8 & H9 & H10 & H11 & H12 & H13 & H14) me t l.
+  split; [apply go_h_MODE_eq; assumption|]. split; [apply go_h_311_eq; assumption|].
+  split; [apply go_h_352_eq; assumption|]. intros Hme. apply go_h_JOIN_eq; assumption.
+Qed.
+
+(* satisfiable: TrackerSpec itself as a Tracker record *)
+Definition spec_as_tracker : @go_state_Tracker nrest crest TrackerSpec.tstate :=
+  {| go_state_Tracker_Associate := fun t a b => liftp (TrackerSpec.sp_Associate t a b);
      go_state_Tracker_ChannelModes := fun t a b c => liftc (TrackerSpec.sp_ChannelModes t a b c);
-     go_state_Tracker_DelChannel := fun t _ => (t, None);
+     go_state_Tracker_DelChannel := fun t a => liftc (TrackerSpec.sp_DelChannel t a);
      go_state_Tracker_DelNick := fun t a => liftn (TrackerSpec.sp_DelNick t a);
      go_state_Tracker_Dissociate := fun t a b => TrackerSpec.sp_Dissociate t a b;
      go_state_Tracker_GetChannel := fun t a => liftc (TrackerSpec.sp_GetChannel t a);
      go_state_Tracker_GetNick := fun t a => liftn (TrackerSpec.sp_GetNick t a);
-     go_state_Tracker_IsOn := fun t _ _ => (t, (None, false));
+     go_state_Tracker_IsOn := fun t a b => liftpb (TrackerSpec.sp_IsOn t a b);
      go_state_Tracker_Me := fun t => liftn (TrackerSpec.sp_Me t);
-     go_state_Tracker_NewChannel := fun t _ => (t, None);
-     go_state_Tracker_NewNick := fun t _ => (t, None);
-     go_state_Tracker_NickInfo := fun t _ _ _ _ => (t, None);
+     go_state_Tracker_NewChannel := fun t a => liftc (TrackerSpec.sp_NewChannel t a);
+     go_state_Tracker_NewNick := fun t a => liftn (TrackerSpec.sp_NewNick t a);
+     go_state_Tracker_NickInfo := fun t a b c d => liftn (TrackerSpec.sp_NickInfo t a b c d);
      go_state_Tracker_NickModes := fun t a b => liftn (TrackerSpec.sp_NickModes t a b);
      go_state_Tracker_ReNick := fun t a b => liftn (TrackerSpec.sp_ReNick t a b);
      go_state_Tracker_String := fun t => (t, []);
      go_state_Tracker_Topic := fun t a b => liftc (TrackerSpec.sp_Topic t a b);
-     go_state_Tracker_Wipe := fun t => t |}.
+     go_state_Tracker_Wipe := fun t => TrackerSpec.sp_Wipe t |}.
 Lemma spec_as_tracker_ok : spec_tracker spec_as_tracker.
 Proof. repeat split. Qed.
